@@ -13,14 +13,14 @@ from .common import MachineryError
 
 
 def validate(workdir, module, traces, *, constants=None, invariants=(), properties=(), spec="TraceSpec",
-             timeout=1200, chunk=4000, extra_cfg=()):
+             timeout=1200, chunk=4000, extra_cfg=(), extra_steps=0):
     """returns (accepted_count, [(trace_index, matched_prefix_len), ...rejected], invariant_failure_or_None)"""
     accepted = 0
     rejected = []
     inv_fail = []
     for off in range(0, len(traces), chunk):
         part = traces[off:off + chunk]
-        a, r, f = _validate_chunk(workdir, module, part, constants, invariants, properties, spec, timeout, extra_cfg)
+        a, r, f = _validate_chunk(workdir, module, part, constants, invariants, properties, spec, timeout, extra_cfg, extra_steps)
         accepted += a
         rejected += [(off + i, p) for i, p in r]
         inv_fail += [(off + i, n, s) for i, n, s in f]
@@ -31,7 +31,7 @@ def validate(workdir, module, traces, *, constants=None, invariants=(), properti
 validate.last_invariant_failures = []
 
 
-def _validate_chunk(workdir, module, traces, constants, invariants, properties, spec, timeout, extra_cfg):
+def _validate_chunk(workdir, module, traces, constants, invariants, properties, spec, timeout, extra_cfg, extra_steps=0):
     if not traces:
         return 0, [], []
     path = os.path.join(workdir, module + "_traces.json")
@@ -57,7 +57,7 @@ def _validate_chunk(workdir, module, traces, constants, invariants, properties, 
         inv_fail.append(((tid or 1) - 1, res.violated, tlaval.to_json(res.trace[-1][1]) if res.trace else None))
         # validate the remaining traces without the failing one
         rest = [t for i, t in enumerate(traces) if i != (tid or 1) - 1]
-        a, r, f = _validate_chunk(workdir, module, rest, constants, invariants, properties, spec, timeout, extra_cfg)
+        a, r, f = _validate_chunk(workdir, module, rest, constants, invariants, properties, spec, timeout, extra_cfg, extra_steps)
         fix = lambda i: i if i < (tid or 1) - 1 else i + 1  # noqa
         return a, [(fix(i), p) for i, p in r], inv_fail + [(fix(i), n, s) for i, n, s in f]
     if not os.path.exists(ppath):
@@ -69,7 +69,7 @@ def _validate_chunk(workdir, module, traces, constants, invariants, properties, 
         raise MachineryError("PREFIXES has %d entries for %d traces" % (len(pref), len(traces)))
     acc, rej = 0, []
     for i, (p, t) in enumerate(zip(pref, traces)):
-        if p >= len(t["events"]):
+        if p >= len(t["events"]) + extra_steps:
             acc += 1
         else:
             rej.append((i, p))
